@@ -10,6 +10,13 @@
 #include <unordered_map>
 #include <mutex>
 
+#ifdef PSTLAB_ORATIO_VERIF
+namespace oratio_verif
+{
+  struct access;
+}
+#endif
+
 namespace smt
 {
   class lra_value_listener;
@@ -21,6 +28,9 @@ namespace smt
     friend class lra_value_listener;
     friend class assertion;
     friend class row;
+#ifdef PSTLAB_ORATIO_VERIF
+    friend struct ::oratio_verif::access;
+#endif
 
   public:
     SMT_EXPORT lra_theory(sat_core &sat);
